@@ -18,4 +18,15 @@ case "$1" in
       exit 2
     fi ;;
 esac
+case "$1" in
+  C19|c19|replay)
+    # C19 compares the two arithmetic backends: build the transcript tool once per backend
+    for b in blst rust; do
+      if ! (cd /verif/xb && cargo build --release --offline --no-default-features --features $b --target-dir /verif/.target/xb-$b >/verif/.target/build-xb-$b.log 2>&1); then
+        tail -40 /verif/.target/build-xb-$b.log >&2
+        echo "MACHINERY-ERROR build of xb ($b backend) failed" >&2
+        exit 2
+      fi
+    done ;;
+esac
 exec /verif/.target/release/blsful-mc "$@"
